@@ -85,7 +85,7 @@ def run_property(pid, spec, tier, seed, deadline=None):
             args = r.args + ["--tier=" + tier, "--seed=%d" % seed, "--deadline=%d" % min(share, int(remaining))]
             ed = os.path.join(scratch, "r%d" % i); os.makedirs(ed)
             res = exec_harness(exe, args, r.env, ed)
-            res["run"] = r.describe(); res["_run"] = r; res["_exe"] = exe
+            res["run"] = r.describe(); res["run"]["index"] = i; res["_run"] = r; res["_exe"] = exe
             results.append(res)
         # failures
         seen_sig = {}
@@ -114,7 +114,7 @@ def run_property(pid, spec, tier, seed, deadline=None):
                     continue
                 n = len(violations)
                 path = os.path.join(VERIF, "out", "replay", "%s-%d.json" % (pid, n))
-                json.dump(dict(property=pid, tier=tier, seed=seed, engine="icb", run=r.describe(), clause=f["clause"], msg=f["msg"], replay_argv=[res["_exe"]] + r.args, replay_cmd="bin/replay %s" % path), open(path, "w"), indent=1)
+                json.dump(dict(property=pid, tier=tier, seed=seed, engine="aux", run=res["run"], clause=f["clause"], msg=f["msg"], replay_args=[], replay_cmd="bin/replay %s" % path), open(path, "w"), indent=1)
                 violations.append(dict(sig=f["sig"], clause=f["clause"], id=f["id"], msg=f["msg"], count=v["count"], replay=path))
                 lines.append("VIOLATION property=%s replay=%s" % (pid, path))
                 lines.append("  # %s | %s | %s : %s" % (f["sig"], f["clause"], f["id"], f["msg"]))
@@ -131,8 +131,8 @@ def run_property(pid, spec, tier, seed, deadline=None):
                     raise HarnessError("replay of schedule %s did not reproduce the failure %s deterministically: %r" % (f["id"][:200], key, outs))
                 n = len(violations)
                 path = os.path.join(VERIF, "out", "replay", "%s-%d.json" % (pid, n))
-                json.dump(dict(property=pid, tier=tier, seed=seed, engine="icb", run=r.describe(), scenario=f["id"].split("|schedule=")[0], schedule=sched, clause=f["clause"], msg=f["msg"], occurrences=v["count"],
-                               replay_argv=[res["_exe"]] + r.args + ["--replay=%s:%s" % (sidx, sched)], replay_cmd="bin/replay %s" % path), open(path, "w"), indent=1)
+                json.dump(dict(property=pid, tier=tier, seed=seed, engine="icb", run=res["run"], scenario=f["id"].split("|schedule=")[0], schedule=sched, clause=f["clause"], msg=f["msg"], occurrences=v["count"],
+                               replay_args=["--replay=%s:%s" % (sidx, sched)], replay_cmd="bin/replay %s" % path), open(path, "w"), indent=1)
                 violations.append(dict(sig=f["sig"], clause=f["clause"], id=f["id"][:300], msg=f["msg"], count=v["count"], replay=path))
                 lines.append("VIOLATION property=%s replay=%s" % (pid, path))
                 lines.append("  # %s | %s | %s : %s (x%d)" % (f["sig"], f["clause"], f["id"][:200], f["msg"], v["count"]))
@@ -141,14 +141,14 @@ def run_property(pid, spec, tier, seed, deadline=None):
                 outs = []
                 for rep in range(2):
                     env = dict(os.environ); env.update(SAN_ENV)
-                    pr = subprocess.run([res["_exe"], "--replay=" + f["id"].split("start=", 1)[-1]] if f["id"].startswith("start=") else [res["_exe"], "--replay-scripted=" + f["id"]], capture_output=True, text=True, env=env)
+                    pr = subprocess.run([res["_exe"]] + r.args + (["--replay=" + f["id"].split("start=", 1)[-1]] if f["id"].startswith("start=") else ["--replay-scripted=1"]), capture_output=True, text=True, env=env)
                     outs.append((pr.returncode != 0, sorted(l for l in pr.stdout.splitlines() if l.startswith("FAIL"))[:3]))
-                if f["id"].startswith("start=") and (outs[0] != outs[1] or not outs[0][0]):
+                if outs[0] != outs[1] or not outs[0][0]:
                     raise HarnessError("replay of path %s did not reproduce the failure %s deterministically: %r" % (f["id"], key, outs))
                 n = len(violations)
                 path = os.path.join(VERIF, "out", "replay", "%s-%d.json" % (pid, n))
-                json.dump(dict(property=pid, tier=tier, seed=seed, engine="fsx", run=r.describe(), path=f["id"], clause=f["clause"], msg=f["msg"], occurrences=v["count"],
-                               replay_argv=[res["_exe"], "--replay=" + f["id"].split("start=", 1)[-1]], replay_cmd="bin/replay %s" % path), open(path, "w"), indent=1)
+                json.dump(dict(property=pid, tier=tier, seed=seed, engine="fsx", run=res["run"], path=f["id"], clause=f["clause"], msg=f["msg"], occurrences=v["count"],
+                               replay_args=(["--replay=" + f["id"].split("start=", 1)[-1]] if f["id"].startswith("start=") else ["--replay-scripted=1"]), replay_cmd="bin/replay %s" % path), open(path, "w"), indent=1)
                 violations.append(dict(sig=f["sig"], clause=f["clause"], id=f["id"], msg=f["msg"], count=v["count"], replay=path))
                 lines.append("VIOLATION property=%s replay=%s" % (pid, path))
                 lines.append("  # %s | %s | %s : %s (x%d)" % (f["sig"], f["clause"], f["id"], f["msg"], v["count"]))
@@ -162,7 +162,7 @@ def run_property(pid, spec, tier, seed, deadline=None):
                 raise HarnessError("replay of case %d (%s) did not reproduce the failure %s deterministically: %r" % (f["index"], f["id"], key, reps))
             n = len(violations)
             path = os.path.join(VERIF, "out", "replay", "%s-%d.json" % (pid, n))
-            json.dump(dict(property=pid, tier=tier, seed=seed, run=r.describe(), case_index=f["index"], case_id=f["id"], sig=f["sig"], clause=f["clause"], msg=f["msg"],
+            json.dump(dict(property=pid, tier=tier, seed=seed, engine="bex", run=res["run"], case_index=f["index"], case_id=f["id"], sig=f["sig"], clause=f["clause"], msg=f["msg"],
                            occurrences=v["count"], replay_cmd="bin/replay %s" % path), open(path, "w"), indent=1)
             violations.append(dict(sig=f["sig"], clause=f["clause"], id=f["id"], msg=f["msg"], count=v["count"], replay=path))
             lines.append("VIOLATION property=%s replay=%s" % (pid, path))
